@@ -13,7 +13,7 @@
 
 #define MAXJOBS 96
 #define MAXOPS 64
-typedef struct { int id, posted, accepted, started, finished, count, nest, child, work; long accept_seq; } JobRec;
+typedef struct { int id, posted, accepted, started, finished, count, nest, child, work, waitfor; long accept_seq; } JobRec;
 typedef struct { int kind, client, a, b, c, d; } COp;   /* kind: 0 add,1 tryadd,2 join,3 resize */
 
 static struct {
@@ -22,6 +22,7 @@ static struct {
     long seq; int free_started; int limit, queue, threads0;
     int blocked_add[64], blocked_join[64], is_client[64];
     pthread_mutex_t work_mu;
+    pthread_mutex_t dep_mu; pthread_cond_t dep_cv; int dep_waiting[64]; pthread_mutex_t resize_mu;
 } S;
 
 static void do_work(int n) { int i; for (i = 0; i < n; i++) { sim_mutex_lock(&S.work_mu); sim_mutex_unlock(&S.work_mu); } }
@@ -51,9 +52,15 @@ static void job_fn(void* arg) {
     j->started = 1;
     sim_event("start job=%d on=t%d", j->id, sim_self());
     do_work(j->work);
+    if (j->waitfor >= 0 && j->waitfor < S.njobs && j->waitfor != j->id) {   /* a job may legitimately need a LATER job to run first when the pool has 2+ workers */
+        sim_probe("pool.job_waits_for_job");
+        sim_mutex_lock(&S.dep_mu); S.dep_waiting[sim_self()] = 1;
+        while (!S.jobs[j->waitfor].finished) sim_cond_wait(&S.dep_cv, &S.dep_mu);
+        S.dep_waiting[sim_self()] = 0; sim_mutex_unlock(&S.dep_mu);
+    }
     if (j->nest && j->child >= 0 && j->child < S.njobs) { sim_probe(j->nest == 2 ? "pool.nested_add" : "pool.nested_tryadd"); post(&S.jobs[j->child], j->nest == 2); }
     do_work(j->work / 2);
-    j->finished = 1;
+    sim_mutex_lock(&S.dep_mu); j->finished = 1; sim_cond_broadcast(&S.dep_cv); sim_mutex_unlock(&S.dep_mu);
     sim_event("finish job=%d", j->id);
 }
 static void do_join(void) {
@@ -75,7 +82,8 @@ static void run_client(int client) {
         switch (o->kind) {
         case 0: case 1: if (o->a >= 0 && o->a < S.njobs && !S.jobs[o->a].posted) post(&S.jobs[o->a], o->kind == 0); break;
         case 2: do_join(); break;
-        case 3: { int const r = POOL_resize(S.pool, (size_t)o->a); if (r == 0 && o->a > 0) S.limit = o->a; sim_event("resize n=%d r=%d", o->a, r); sim_probe("pool.resize"); break; }
+        case 3: { int r; sim_mutex_lock(&S.resize_mu);   /* the model's limit must follow the order in which resizes take effect: clients do not overlap their resizes */
+            r = POOL_resize(S.pool, (size_t)o->a); if (r == 0 && o->a > 0) S.limit = o->a; sim_mutex_unlock(&S.resize_mu); sim_event("resize n=%d r=%d", o->a, r); sim_probe("pool.resize"); break; }
         default: break;
         }
     }
@@ -89,12 +97,14 @@ static int classify_deadlock(char* buf, size_t n) {
         void* w; int st = sim_thread_state(i, &w);
         if (S.blocked_add[i]) adders++;
         if (S.blocked_join[i]) joiners++;
-        if (!S.is_client[i] && st == ST_BLOCKED_COND) { int inside_job = 0; (void)w; if (S.blocked_add[i]) inside_job = 1; if (!inside_job) idle_workers++; }
+        if (!S.is_client[i] && st == ST_BLOCKED_COND) { int inside_job = 0; (void)w; if (S.blocked_add[i] || S.dep_waiting[i]) inside_job = 1; if (!inside_job) idle_workers++; }
         if (i == 0 && st == ST_BLOCKED_JOIN && S.free_started) main_in_free = 1;
     }
     snprintf(buf, n, "model: running=%d queued=%d limit=%d queue=%d idle_workers=%d blocked_add=%d blocked_join=%d in_free=%d",
              running, queued, S.limit, S.queue, idle_workers, adders, joiners, main_in_free);
-    if (main_in_free) return 0;                                   /* POOL_free never completes: always a violation */
+    { int depw = 0; for (i = 0; i < nthreads; i++) depw += S.dep_waiting[i];
+      if (main_in_free && !depw && !adders) return 0;              /* POOL_free never completes although no job is waiting on the program itself: always a violation */
+      if (main_in_free && queued > 0 && running < S.limit && idle_workers > 0) return 0; }
     if (joiners && queued == 0 && running == 0) return 0;          /* joinJobs sleeps although all accepted work finished */
     if (queued > 0 && running < S.limit && idle_workers > 0) return 0;  /* work queued, idle worker asleep */
     if (adders) {
@@ -108,18 +118,22 @@ static void gen(Plan* p, Rng* r, int tier, long idx) {
     int threads = (int)rng_range(r, 1, 3), queue = (int)rng_range(r, 0, 2), nclients = (int)rng_range(r, 1, 2);
     int nposts = (int)rng_range(r, 2, tier ? 16 : 10), i, nextjob = 0, minlimit = threads, nblocking = 0;
     int faults = (idx % 4) == 3;
-    int resize_n[8], nres = 0;
+    int resize_n[8], nres = 0, grow_at = -1, grow_to = 0;
     (void)tier;
     plan_set(p, "threads", threads); plan_set(p, "queue", queue); plan_set(p, "nclients", nclients);
     plan_set(p, "final_join", rng_coin(r, 1, 2));
     /* decide resizes first so the nested-blocking budget respects the smallest limit */
     { int k = rng_coin(r, 1, 3) ? (int)rng_range(r, 1, 2) : 0; for (i = 0; i < k; i++) { resize_n[nres] = (int)rng_range(r, 1, 4); if (resize_n[nres] < minlimit) minlimit = resize_n[nres]; nres++; } }
+    /* shrink first, grow back later inside the existing capacity (every third program with 2+ threads) */
+    if (threads >= 2 && (idx % 3) == 1) { int low = (int)rng_range(r, 1, threads - 1); plan_add(p, "resize", 2, (int64_t)0, (int64_t)low); if (low < minlimit) minlimit = low; grow_at = 1 + (int)rng_below(r, (uint64_t)nposts); grow_to = (int)rng_range(r, low + 1, threads); }
     for (i = 0; i < nposts; i++) {
-        int client = (int)rng_below(r, (uint64_t)nclients), kind = rng_coin(r, 7, 10) ? 0 : 1, nest = 0, child = -1, id = nextjob++;
+        int client = (int)rng_below(r, (uint64_t)nclients), kind = rng_coin(r, 7, 10) ? 0 : 1, nest = 0, child = -1, id = nextjob++, waitfor = -1;
+        if (i == grow_at) plan_add(p, "resize", 2, (int64_t)rng_below(r, (uint64_t)nclients), (int64_t)grow_to);
         int x = (int)rng_below(r, 100);
         if (x < 25) nest = 1; else if (x < 45 && nblocking < minlimit - 1) { nest = 2; nblocking++; }
         if (nest) child = nextjob++;
-        plan_add(p, kind == 0 ? "add" : "tryadd", 5, (int64_t)client, (int64_t)id, (int64_t)nest, (int64_t)child, (int64_t)rng_below(r, 4));
+        if (threads >= 2 && i + 1 < nposts && rng_coin(r, 1, 6)) waitfor = nextjob;   /* the job posted next */
+        plan_add(p, kind == 0 ? "add" : "tryadd", 6, (int64_t)client, (int64_t)id, (int64_t)nest, (int64_t)child, (int64_t)rng_below(r, 4), (int64_t)waitfor);
         if (rng_coin(r, 1, 5)) plan_add(p, "join", 1, (int64_t)rng_below(r, (uint64_t)nclients));
         if (nres && rng_coin(r, 1, 4)) { plan_add(p, "resize", 2, (int64_t)rng_below(r, (uint64_t)nclients), (int64_t)resize_n[--nres]); }
     }
@@ -137,21 +151,21 @@ static void exec(const Plan* p) {
     if (S.threads0 < 1) S.threads0 = S.limit = 1; if (S.threads0 > 8) S.threads0 = S.limit = 8; if (S.queue < 0) S.queue = 0; if (S.queue > 8) S.queue = 8;
     nclients = (int)plan_get(p, "nclients", 1); final_join = (int)plan_get(p, "final_join", 1);
     S.njobs = (int)plan_get(p, "njobs", 0); if (S.njobs > MAXJOBS) S.njobs = MAXJOBS; if (S.njobs < 0) S.njobs = 0;
-    for (i = 0; i < MAXJOBS; i++) { S.jobs[i].id = i; S.jobs[i].child = -1; S.jobs[i].accepted = -1; }
+    for (i = 0; i < MAXJOBS; i++) { S.jobs[i].id = i; S.jobs[i].child = -1; S.jobs[i].accepted = -1; S.jobs[i].waitfor = -1; }
     for (i = 0; i < p->nops && S.nops < MAXOPS; i++) {
         const PlanOp* o = &p->ops[i]; COp* c = &S.ops[S.nops];
         if (!strcmp(o->kind, "add") || !strcmp(o->kind, "tryadd")) {
             int id = (int)o->a[1];
             if (id < 0 || id >= S.njobs) continue;
             c->kind = o->kind[0] == 'a' ? 0 : 1; c->client = (int)o->a[0] & 1; c->a = id;
-            S.jobs[id].nest = (int)o->a[2]; S.jobs[id].child = (int)o->a[3]; S.jobs[id].work = (int)o->a[4] & 7;
+            S.jobs[id].nest = (int)o->a[2]; S.jobs[id].child = (int)o->a[3]; S.jobs[id].work = (int)o->a[4] & 7; S.jobs[id].waitfor = o->nargs > 5 ? (int)o->a[5] : -1;
             if (S.jobs[id].child == id) S.jobs[id].nest = 0;
             S.nops++;
         } else if (!strcmp(o->kind, "join")) { c->kind = 2; c->client = (int)o->a[0] & 1; S.nops++; }
         else if (!strcmp(o->kind, "resize")) { c->kind = 3; c->client = (int)o->a[0] & 1; c->a = (int)o->a[1]; if (c->a < 0) c->a = 0; if (c->a > 6) c->a = 6; S.nops++; }
     }
     if (nclients < 2) for (i = 0; i < S.nops; i++) S.ops[i].client = 0;
-    sim_mutex_init(&S.work_mu, NULL);
+    sim_mutex_init(&S.work_mu, NULL); sim_mutex_init(&S.dep_mu, NULL); sim_cond_init(&S.dep_cv, NULL); sim_mutex_init(&S.resize_mu, NULL);
     sim_on_deadlock = classify_deadlock;
     S.is_client[0] = 1;
     S.pool = POOL_create_advanced((size_t)S.threads0, (size_t)S.queue, zcm);
@@ -173,7 +187,7 @@ static void exec(const Plan* p) {
         if (sim_sched_live_threads() != 0) sim_violation("pool_free_joined", "%d worker(s) alive after POOL_free", sim_sched_live_threads());
         { int acc = 0; for (i = 0; i < S.njobs; i++) acc += S.jobs[i].accepted == 1; if (acc >= 2) sim_mark_nontrivial(); }
     } else sim_probe("pool.create_failed");
-    sim_mutex_destroy(&S.work_mu);
+    sim_mutex_destroy(&S.work_mu); sim_mutex_destroy(&S.dep_mu); sim_cond_destroy(&S.dep_cv); sim_mutex_destroy(&S.resize_mu);
     sim_on_deadlock = NULL;
     if (sim_alloc_live_blocks() != 0) { char b[200]; sim_alloc_describe_live(b, sizeof b); sim_violation("pool_leak", "%ld block(s) from the custom allocator not returned after free: %s", sim_alloc_live_blocks(), b); }
     if ((e = sim_alloc_check()) != NULL) sim_violation("pool_memory", "%s", e);
